@@ -76,17 +76,26 @@ int gstuff_autorecv_newchar_v1(struct gstuff_autorecv_v1 *autom, char c)
         default:
             // Невалидный пакет.
             sts = GSTUFF_DATA_ERROR_V1;
-            goto __finish__;
+            if (c == GSTUFF_START_V1)
+                goto __finish__;
+            goto __skip__;
         }
 
         goto __putchar__;
+
+    case 3:
+        // The rest of a refused frame is skipped up to the marker
+        // that ends it.
+        if (c == GSTUFF_START_V1)
+            autom->state = 0;
+        goto __continue__;
     }
 
 __putchar__:
     if (!sline_putchar(&autom->line, c))
     {
         sts = GSTUFF_OVERFLOW_V1;
-        goto __finish__;
+        goto __skip__;
     }
     igris_strmcrc8(&autom->crc, c);
     autom->state = 1;
@@ -97,5 +106,11 @@ __continue__:
 
 __finish__:
     autom->state = 0;
+    return sts;
+
+__skip__:
+    // The frame is refused. Its remaining bytes must not be taken
+    // for a new frame: wait for the marker.
+    autom->state = 3;
     return sts;
 }
